@@ -342,6 +342,13 @@ func TestDrv_C12(t *testing.T) {
 		return nil
 	}))
 
+	// specifications whose first bound is negative: the bounds as given, no zero bound in front (it "is added when the
+	// first bound is positive")
+	for _, c := range [][]uint64{{5e6, 5e6}, {1e9, 0, 250e6}, {1, 0}, {3600e9, 1e6, 2e6, 3e6}, {1000}} {
+		d.parseNeg(r, c[0], c[1:])
+		parseCases++
+	}
+
 	// (T) random bound lists of 1..20 bounds up to hours, latencies on, just
 	// below and just above every bound, and anywhere
 	nRandom, nLat := 60, 400
@@ -437,6 +444,30 @@ func (d *c12Drv) parse(r *rand.Rand, toks []uint64) []uint64 {
 		return nil
 	}
 	return fromDurs(bs)
+}
+
+// parseNeg feeds a bucket list whose first bound is -first (the rest follow, non-negative and increasing) to the real parser.
+func (d *c12Drv) parseNeg(r *rand.Rand, first uint64, rest []uint64) {
+	text := bucketsText(r, append([]uint64{first}, rest...))
+	i := strings.IndexFunc(text, func(c rune) bool { return c != '[' && c != ' ' && c != '\t' })
+	text = text[:i] + "-" + text[i:]
+	var bs vegeta.Buckets
+	var err error
+	d.guard("UnmarshalText", func() { err = bs.UnmarshalText([]byte(text)) })
+	signs, abs := make([]int, len(bs)), make([]uint64, len(bs))
+	for i, b := range bs {
+		switch {
+		case b < 0:
+			signs[i], abs[i] = -1, uint64(-b)
+		case b > 0:
+			signs[i], abs[i] = 1, uint64(b)
+		}
+	}
+	kv := KV{"negfirst": Big(first), "rest": Bigs(rest), "text": text, "ok": err == nil, "signs": signs, "abs": Bigs(abs)}
+	if err != nil {
+		kv["err"] = err.Error()
+	}
+	d.tr.Emit("ParseNeg", kv)
 }
 
 func (d *c12Drv) cli(t *testing.T, r *rand.Rand, dir string) int {
